@@ -86,8 +86,9 @@ def r1_raw_read(ctx, R1):
         if len(datas) != 1 or not any(e[1] == "self._fp.close" for e in r.events("call")):
             continue
         D = datas[0]
-        if r.truth(D) is not True and r.cmp(T("len", D), "==", "0") is not False:
-            continue  # nothing was returned on this row: the end-of-stream rows above
+        z_ = r.cmp(T("len", D), "==", "0")
+        if r.truth(D) is False or z_ is True or (r.truth(D) is None and z_ is None):
+            continue  # nothing was returned on this row (the end-of-stream rows above), or truthiness and length disagree (infeasible)
         LEN = T("len", D)
         last = (r.cmp(REM, "==", LEN) is True or r.cmp(LEN, "==", REM) is True or r.cmp(T("sub", REM, LEN), "==", "0") is True
                 or r.cmp(T("sub", REM, LEN), "<=", "0") is True or r.cmp(REM, "<=", LEN) is True)
